@@ -66,3 +66,44 @@ def const_str(node):
         if l is not None and r is not None:
             return l + r
     return None
+
+
+_prelude = None
+
+
+def prelude_objects():
+    """what the helpers of a render function can see: the module-level statements emitted by
+    Compiler.visit_Module and the `__x = g_x` aliases emitted by Compiler.visit_Macro, executed
+    here (they only import re/functools/itertools/sys and compile patterns)"""
+    global _prelude
+    if _prelude is None:
+        env = {}
+        for qual, lineno, text, kws in inline_templates():
+            if qual in ('Compiler.visit_Module', 'Compiler.visit_Macro') and not kws:
+                try:
+                    exec(text, env)
+                except Exception:
+                    pass
+        env.pop('__builtins__', None)
+        _prelude = env
+    return _prelude
+
+
+def escape_class():
+    """the characters of the class `__re_needs_escape` searches for, read off the real pattern
+    (None if it is not a plain character class)"""
+    import re._constants as C
+    import re._parser as P
+    f = prelude_objects().get('__re_needs_escape')
+    pat = getattr(f, '__self__', None)
+    if pat is None or getattr(f, '__name__', '') != 'search':
+        return None
+    tree = P.parse(pat.pattern, pat.flags)
+    if len(tree.data) != 1 or tree.data[0][0] is not C.IN:
+        return None
+    chars = []
+    for op, av in tree.data[0][1]:
+        if op is not C.LITERAL:
+            return None
+        chars.append(chr(av))
+    return ''.join(chars)
